@@ -1,54 +1,27 @@
 import SockModel.Drive.Common
 import SockModel.Drive.C02
-import SockModel.Model.Udp
-/-! Driver for C09: validates UDP transcripts (`harness/scen/udp.cpp`) against `Model/Udp.lean`
-(correspondence: `sendTo`, the datagram network, the per-socket `SendToQ`, the driver's dispatch
-order) and evaluates the property on the observations (reference bookkeeping with plain lists:
-what must be reported next per receiver, which future must have which state). -/
+import SockModel.Spec.C09
+/-! Driver for C09: validates UDP transcripts (`harness/scen/udp.cpp`).
+
+Every op line with its `->` observation lines is parsed into ONE typed observation `Udp.Obs`
+(`Spec/C09.lean`).  Then
+* spec: `Udp.specStep` - the property predicate of `Spec/C09.lean`, on the observations only; this
+  file contains no property clause of its own (one source of truth; `Udp.model_satisfies_spec` proves
+  that the predicate accepts every trace of the model);
+* correspondence: `Udp.sysStep` - the composed model (`sendTo`, the datagram network, the per-socket
+  `SendToQ`, the driver's dispatch order) performs the same operation with the same OS answers and must
+  produce the same observation.
+-/
 namespace SockModel.Drive.C09
 open SockModel SockModel.Drive SockModel.Udp
 open SockModel.AsyncQ (Bytes Fut)
-open SockModel.Drive.C02 (content fnv takeObs sameSet letter parseRet)
-
-structure SockInfo where
-  i : Nat
-  kind : String
-  rx : Nat
-  deriving Repr
-
-def noLimit : Nat := 2 ^ 40
+open SockModel.Drive.C02 (takeObs parseRet)
 
 structure CSt where
-  fam : Nat := 4
-  socks : List SockInfo := []
-  net : Net := {}
-  tqs : List (Nat × TQ) := []
-  ids : List Nat := []
-  -- reference bookkeeping for the property (observations only)
-  expect : List (Nat × List (Bytes × Nat)) := []   -- per receiver: datagrams still to be reported, in order
-  status : List (Nat × Char) := []                 -- async message id ↦ expected future letter
-  pendq : List (Nat × List (Nat × Nat × Nat)) := [] -- per async socket: queued (message id, len, dst)
+  sys : Sys := {}          -- model (correspondence)
+  sp : SpecSt := {}        -- reference book-keeping of the property (observations only)
   lastFail : Bool := false
   tags : List String := []
-
-def maxPayload (fam : Nat) : Nat := if fam = 6 then 65527 else 65507
-
-def lookup {α} (l : List (Nat × α)) (k : Nat) : Option α := (l.find? (·.1 = k)).map (·.2)
-def setKey {α} (l : List (Nat × α)) (k : Nat) (v : α) : List (Nat × α) :=
-  if l.any (·.1 = k) then l.map (fun (a, x) => if a = k then (a, v) else (a, x)) else l ++ [(k, v)]
-
-def CSt.sock (c : CSt) (i : Nat) : Option SockInfo := c.socks.find? (·.i = i)
-def CSt.expectOf (c : CSt) (i : Nat) : List (Bytes × Nat) := (lookup c.expect i).getD []
-def CSt.pendOf (c : CSt) (i : Nat) : List (Nat × Nat × Nat) := (lookup c.pendq i).getD []
-def CSt.tq (c : CSt) (i : Nat) : TQ := (lookup c.tqs i).getD {}
-def CSt.letters (c : CSt) : String := String.ofList (c.status.map (·.2))
-def CSt.resolvedIds (c : CSt) : List Nat := (c.status.filter (·.2 ≠ 'p')).map (·.1)
-def CSt.room (s : SockInfo) (size : Nat) : Nat :=
-  if s.kind = "basic" then size else if s.rx = 0 then noLimit else s.rx
-
-inductive Script where
-  | pass | fail (e : Nat) | short (k : Nat) | timeout
-  deriving Repr, BEq
 
 def parseScript : List String → Script
   | ["fail", e] => .fail (e.toNat?.getD 0)
@@ -56,49 +29,75 @@ def parseScript : List String → Script
   | ["timeout"] => .timeout
   | _ => .pass
 
-/-- spec + corr check of the state line -/
-def CSt.checkState (c : CSt) (obs : List (List String)) (l : String) : Option Verdict :=
+def parseSrc (s : String) : Src :=
+  match s.toNat? with
+  | some n => .ord n
+  | none => .unknown s
+
+def parseKind (s : String) : Kind :=
+  if s = "basic" then .basic else if s = "buff" then .buff else .async   -- as the harness: anything else is async
+
+/-- the `st fut=... ret=...` line -/
+def parseState (obs : List (List String)) : Except String StObs :=
   match obs.find? (fun o => o.head? == some "st") with
   | some ["st", f, r] =>
     let f := (f.drop 4).toString
     let f := if f = "-" then "" else f
     match parseRet (r.drop 4).toString with
-    | some ret =>
-      if f ≠ c.letters then
-        some (Verdict.spec s!"after '{l}': futures are {f}, expected {c.letters} (a future has a value iff its datagram was handed to the OS, an exception iff its sendto failed, later ones not held up)" c.tags)
-      else if ¬ sameSet ret c.resolvedIds then
-        some (Verdict.spec s!"after '{l}': buffers back in the pool {ret} differ from the resolved futures {c.resolvedIds}" c.tags)
+    | some ret => .ok ⟨f.toList, ret⟩
+    | none => .error "bad state line"
+  | _ => .error "missing state observation"
+
+/-- branch tags of a report of receiver `i` with `room` bytes of room (evidence only) -/
+def reportTags (sp : SpecSt) (i room : Nat) : List String :=
+  match sp.expect i with
+  | (p, _) :: _ =>
+    (if p.length > room then "recv.trunc" else if p.length = room then "recv.exact" else "recv.fits")
+      :: (if p.isEmpty then ["recv.empty"] else [])
+  | [] => []
+
+def sendTag (len : Nat) (t : Int) (sc : Script) : SendObs → String
+  | .ret _ => if sc = .timeout ∧ t ≥ 0 then "send.timeout" else if len = 0 then "send.empty" else "send.ok"
+  | .throwSystem _ => match sc with | .fail _ => "send.fail" | _ => "send.emsgsize"
+  | .throwLogic => "send.short"
+  | .other _ => "send.other"
+
+/-- correspondence: same observation (the order of `ret=` is the harness' order of discovery: the
+property compares it as a set, the model lists it in `SendTo` order) -/
+def sameObs : Obs → Obs → Bool
+  | .asend i j m n st, .asend i' j' m' n' st' =>
+    decide (i = i' ∧ j = j' ∧ m = m' ∧ n = n' ∧ st.futs = st'.futs) && sameSet st.ret st'.ret
+  | .step ev st, .step ev' st' => decide (ev = ev' ∧ st.futs = st'.futs) && sameSet st.ret st'.ret
+  | .destroy i st, .destroy i' st' => decide (i = i' ∧ st.futs = st'.futs) && sameSet st.ret st'.ret
+  | a, b => decide (a = b)
+
+def Obs.futs? : Obs → Option (List Char)
+  | .asend _ _ _ _ st => some st.futs
+  | .step _ st => some st.futs
+  | .destroy _ st => some st.futs
+  | _ => none
+
+/-- spec on the observation `o`, then the model performs `op` and must observe the same -/
+def CSt.apply (c : CSt) (l : String) (o : Obs) (op : Op) (tags : List String) : Except Verdict CSt :=
+  match specStep c.sp o with
+  | .error msg => .error (Verdict.spec s!"after '{l}': {msg}" c.tags)
+  | .ok sp' =>
+    let (sys', mo) := sysStep c.sys op
+    match mo with
+    | [o'] =>
+      if sameObs o o' then .ok { c with sys := sys', sp := sp', tags := tags ++ c.tags }
       else
-        let mf := String.ofList (c.ids.map fun m =>
-          letter ((c.tqs.map (fun (_, t) => t.fut m)).foldl (fun acc x => if x = Fut.none then acc else x) Fut.none))
-        if mf ≠ f then some (Verdict.corr s!"after '{l}': futures impl {f} model {mf}" c.tags) else none
-    | none => some (Verdict.corr s!"after '{l}': bad state line" c.tags)
-  | _ => some (Verdict.corr s!"after '{l}': missing state observation" c.tags)
+        match Obs.futs? o, Obs.futs? o' with
+        | some f, some mf =>
+          if f ≠ mf then .error (Verdict.corr s!"after '{l}': futures impl {String.ofList f} model {String.ofList mf}" c.tags)
+          else .error (Verdict.corr s!"after '{l}': impl {repr o} model {repr o'}" c.tags)
+        | _, _ => .error (Verdict.corr s!"after '{l}': impl {repr o} model {repr o'}" c.tags)
+    | _ => .error (Verdict.corr s!"after '{l}': the model does not perform this operation (harness precondition violated: unknown / destroyed / re-used socket or message id)" c.tags)
 
-/-- a report (len hash src) against the next expected datagram of receiver `i` with `room` bytes -/
-def CSt.takeReport (c : CSt) (i room : Nat) (len hash src : String) (l : String) : Except Verdict CSt :=
-  match c.expectOf i with
-  | [] => .error (Verdict.spec s!"after '{l}': socket {i} reports a datagram ({len} bytes from {src}) although none is outstanding (duplicate or invented)" c.tags)
-  | (p, s) :: rest =>
-    let want := p.take room
-    if len ≠ toString want.length ∨ hash ≠ toString (fnv want) then
-      .error (Verdict.spec s!"after '{l}': socket {i} reports {len} bytes (hash {hash}); the next datagram sent to it has {p.length} bytes, with {room} bytes of room the report must be its first {want.length} bytes (hash {fnv want})" c.tags)
-    else if src ≠ toString s then
-      .error (Verdict.spec s!"after '{l}': socket {i} reports source {src}, the datagram was sent by socket {s}" c.tags)
-    else
-      -- model: the same receive on the network
-      match c.net.chan i with
-      | [] => .error (Verdict.corr s!"after '{l}': model channel of {i} is empty" c.tags)
-      | d :: _ =>
-        let rep := receiveFrom d room
-        if rep.payload ≠ want ∨ rep.src ≠ s then .error (Verdict.corr s!"after '{l}': model report differs" c.tags)
-        else
-          let tag := if p.length > room then "recv.trunc" else if p.length = room then "recv.exact" else "recv.fits"
-          let tag2 := if p.isEmpty then ["recv.empty"] else []
-          .ok { c with expect := setKey c.expect i rest, net := netStep c.net (.recv i room), tags := tag :: tag2 ++ c.tags }
-
-def CSt.deliver (c : CSt) (src dst : Nat) (p : Bytes) : CSt :=
-  { c with expect := setKey c.expect dst (c.expectOf dst ++ [(p, src)]), net := netStep c.net (.deliver src dst p) }
+def abortV (c : CSt) (msg : String) : Verdict :=
+  match specStep c.sp (.abort msg) with
+  | .error m => Verdict.spec m c.tags
+  | .ok _ => Verdict.spec msg c.tags
 
 partial def go (c : CSt) : List String → Verdict
   | [] => { tags := c.tags }
@@ -106,174 +105,149 @@ partial def go (c : CSt) : List String → Verdict
     let w := words l
     if w.isEmpty then go c rest else
     match w with
-    | "->" :: "crash" :: x => Verdict.spec ("crash: " ++ " ".intercalate x) c.tags
-    | "->" :: "hang" :: x => Verdict.spec ("hang: " ++ " ".intercalate x) c.tags
+    | "->" :: "crash" :: x => abortV c ("crash: " ++ " ".intercalate x)
+    | "->" :: "hang" :: x => abortV c ("hang: " ++ " ".intercalate x)
     | "->" :: _ => go c rest
     | _ =>
       let (obs, rest') := takeObs rest []
       match obs.find? (fun o => o.head? == some "crash" ∨ o.head? == some "hang") with
-      | some o => Verdict.spec s!"after '{l}': {" ".intercalate o}" c.tags
+      | some o => abortV c s!"after '{l}': {" ".intercalate o}"
       | none =>
       match obs.find? (fun o => o.take 2 == ["throw", "harness"]) with
       | some o => Verdict.corr s!"after '{l}': {" ".intercalate o}" c.tags
       | none =>
+      let next (r : Except Verdict CSt) : Verdict := match r with | .error v => v | .ok c => go c rest'
       match w with
-      | ["fam", f] => go { c with fam := f.toNat?.getD 4, tags := (if f = "6" then "v6" else "v4") :: c.tags } rest'
+      | ["fam", f] =>
+        let n := f.toNat?.getD 4
+        next (c.apply l (.fam n) (.fam n) [if f = "6" then "v6" else "v4"])
       | "sock" :: i :: kind :: args =>
         let i := i.toNat?.getD 0
         let rx := match args with | [_, s] => s.toNat?.getD 0 | _ => 0
-        go { c with socks := c.socks ++ [⟨i, kind, rx⟩], tqs := if kind = "async" then c.tqs ++ [(i, {})] else c.tqs,
-                    tags := ("sock." ++ kind) :: c.tags } rest'
+        next (c.apply l (.sock i (parseKind kind) rx) (.sock i (parseKind kind) rx) ["sock." ++ kind])
       | "sendto" :: i :: j :: m :: len :: t :: script =>
         match i.toNat?, j.toNat?, m.toNat?, len.toNat?, t.toInt? with
         | some i, some j, some m, some len, some t =>
           let sc := parseScript script
-          let p := content m len
-          let tooBig := len > maxPayload c.fam
-          let wAns := if sc == .timeout then WaitAns.timedOut else WaitAns.ready
-          let sAns := match sc with
-            | .fail _ => SendAns.fail
-            | .short k => if tooBig then SendAns.fail else SendAns.accept (min k len)
-            | _ => if tooBig then SendAns.fail else SendAns.accept len
-          let (res, delivered) := sendTo len t wAns sAns
-          let timedOut := sc == .timeout ∧ t ≥ 0
-          -- the property on the observation
-          let specRes : Except String (Bool × String) :=
+          let r : SendObs :=
             match obs with
-            | [["ret", n]] =>
-              match n.toNat? with
-              | some n =>
-                if timedOut then (if n = 0 then .ok (false, "send.timeout") else .error s!"SendTo returned {n} although its wait timed out")
-                else if n = len then .ok (true, if len = 0 then "send.empty" else "send.ok")
-                else if n = 0 then .error s!"SendTo({len} bytes, timeout {t}) returned 0 although the wait did not time out"
-                else .error s!"SendTo({len} bytes) returned the partial count {n}"
-              | none => .error "bad ret"
-            | [["throw", "system", e]] =>
-              match sc with
-              | .fail e' => if e = toString e' then .ok (false, "send.fail") else .error s!"SendTo reports errno {e}, the OS failed with {e'}"
-              | _ => if tooBig ∧ e = "90" then .ok (false, "send.emsgsize") else .error s!"SendTo({len} bytes) threw system_error {e} although the OS accepted the datagram"
-            | ("throw" :: "logic" :: _) :: _ =>
-              match sc with
-              | .short k => if k < len ∧ ¬ tooBig then .ok (true, "send.short") else .error "logic_error although sendto returned the full size"
-              | _ => .error "SendTo threw logic_error"
-            | o => .error s!"unexpected result {o}"
-          match specRes with
-          | .error msg => Verdict.spec s!"after '{l}': {msg}" c.tags
-          | .ok (sentObs, tag) =>
-            let obsRes := match obs with
-              | [["ret", n]] => SendRes.ret (n.toNat?.getD 0)
-              | [["throw", "system", _]] => SendRes.systemError
-              | _ => SendRes.logicError
-            if obsRes ≠ res ∨ sentObs ≠ delivered then
-              Verdict.corr s!"after '{l}': impl {repr obsRes} model {repr res} (delivered {delivered})" c.tags
-            else
-              let c := if sentObs then c.deliver i j p else c
-              go { c with tags := tag :: c.tags } rest'
+            | [["ret", n]] => match n.toNat? with | some n => .ret n | none => .other "bad ret"
+            | [["throw", "system", e]] => match e.toNat? with | some e => .throwSystem e | none => .other s!"unexpected result {obs}"
+            | ("throw" :: "logic" :: _) :: _ => .throwLogic
+            | o => .other s!"unexpected result {o}"
+          next (c.apply l (.sendto i j m len t sc r) (.sendto i j m len t sc) [sendTag len t sc r])
         | _, _, _, _, _ => Verdict.corr s!"bad line {l}" c.tags
       | ["asend", i, j, m, len] =>
         match i.toNat?, j.toNat?, m.toNat?, len.toNat? with
         | some i, some j, some m, some len =>
-          if obs.any (· == ["nobuf"]) then go { c with tags := "nobuf" :: c.tags } rest' else
-          let tq := tqStep (c.tq i) (.enq m (content m len) j)
-          let c := { c with tqs := setKey c.tqs i tq, ids := c.ids ++ [m], status := c.status ++ [(m, 'p')],
-                            pendq := setKey c.pendq i (c.pendOf i ++ [(m, len, j)]), tags := "asend" :: c.tags }
-          match c.checkState obs l with
-          | some v => v
-          | none => go c rest'
+          if obs.any (· == ["nobuf"]) then next (c.apply l .asendNoBuf (.asend i j m len true) ["nobuf"]) else
+          match parseState obs with
+          | .error e => Verdict.corr s!"after '{l}': {e}" c.tags
+          | .ok st => next (c.apply l (.asend i j m len st) (.asend i j m len false) ["asend"])
         | _, _, _, _ => Verdict.corr s!"bad line {l}" c.tags
       | "step" :: script =>
         let sc := parseScript script
         let sys := obs.filter (fun o => o.head? == some "sys")
         let evs := obs.filter (fun o => o.head? == some "ev")
-        match obs.find? (fun o => o.head? == some "throw") with
-        | some o => Verdict.spec s!"after '{l}': Step threw ({" ".intercalate o}); a failed datagram must only affect its own future" c.tags
-        | none =>
-        if sys.length + evs.length > 1 then Verdict.spec s!"after '{l}': more than one socket task in one step" c.tags else
-        -- model: first async socket in registration order with an event
-        let asyncs := c.socks.filter (·.kind = "async")
-        let pick := asyncs.find? (fun s => ¬ (c.net.chan s.i).isEmpty ∨ (c.tq s.i).armed)
-        -- property on the observations
-        let r : Except Verdict CSt :=
+        -- what the step did, typed
+        let ev : Except Verdict StepEv :=
+          match obs.find? (fun o => o.head? == some "throw") with
+          | some o => .ok (.threw (" ".intercalate o))
+          | none =>
+          if sys.length + evs.length > 1 then .ok .many else
           match sys, evs with
-          | [], [] =>
-            -- "later datagrams are not held up": nothing may be left to do
-            match asyncs.find? (fun s => ¬ (c.expectOf s.i).isEmpty ∨ ¬ (c.pendOf s.i).isEmpty) with
-            | some s => .error (Verdict.spec s!"after '{l}': Step did nothing although socket {s.i} has a datagram to {if (c.expectOf s.i).isEmpty then "send (held up)" else "receive"}" c.tags)
-            | none => .ok c
+          | [], [] => .ok .nothing
           | [], [["ev", "recv", i, len, hash, src]] =>
-            match i.toNat? with
-            | some i =>
-              match c.sock i with
-              | some s =>
-                if pick.map (·.i) ≠ some i ∨ (c.net.chan i).isEmpty then .error (Verdict.corr s!"after '{l}': model dispatches {repr (pick.map (·.i))}, impl received on {i}" c.tags)
-                else (c.takeReport i (CSt.room s 0) len hash src l).map (fun c => { c with tags := "arecv" :: c.tags })
-              | none => .error (Verdict.corr s!"unknown socket {i}" c.tags)
-            | none => .error (Verdict.corr "bad ev" c.tags)
+            match i.toNat?, len.toNat?, hash.toNat? with
+            | some i, some len, some hash => .ok (.recv i len hash (parseSrc src))
+            | _, _, _ => .error (Verdict.corr "bad ev" c.tags)
           | [("sys" :: "sendto" :: i :: len :: res)], [] =>
             match i.toNat?, len.toNat? with
             | some i, some len =>
-              match c.pendOf i with
-              | [] => .error (Verdict.spec s!"after '{l}': socket {i} issued a sendto although nothing is queued" c.tags)
-              | (m, mlen, dst) :: more =>
-                if mlen ≠ len then .error (Verdict.spec s!"after '{l}': socket {i} sent {len} bytes, its oldest queued datagram has {mlen} (order / boundaries)" c.tags)
-                else
-                  let ok := res == [toString len]
-                  let failed := res.head? == some "fail"
-                  if ¬ ok ∧ ¬ failed then .error (Verdict.spec s!"after '{l}': sendto returned {res}" c.tags) else
-                  let scriptedFail : Bool := match sc with | .fail _ => true | _ => false
-                  if failed && !scriptedFail && !(decide (len > maxPayload c.fam)) then .error (Verdict.corr s!"after '{l}': unexpected sendto failure {res}" c.tags) else
-                  if pick.map (·.i) ≠ some i ∨ ¬ (c.net.chan i).isEmpty then .error (Verdict.corr s!"after '{l}': model dispatches {repr (pick.map (·.i))}, impl sent on {i}" c.tags) else
-                  let tq := tqStep (c.tq i) (.writable (if ok then .ok else .fail))
-                  let c := { c with tqs := setKey c.tqs i tq, pendq := setKey c.pendq i more,
-                                    status := c.status.map (fun (a, x) => if a = m then (a, if ok then 'v' else 'e') else (a, x)),
-                                    tags := (if ok then (if c.lastFail then ["asend.ok", "asend.after_fail"] else ["asend.ok"]) else ["asend.fail"]) ++ c.tags,
-                                    lastFail := failed }
-                  .ok (if ok then c.deliver i dst (content m len) else c)
+              .ok (.sendto i len (if res == [toString len] then .full else if res.head? == some "fail" then .fail else .other (toString res)))
             | _, _ => .error (Verdict.corr "bad sys" c.tags)
           | _, _ => .error (Verdict.corr s!"after '{l}': unparsable step observations" c.tags)
-        match r with
+        match ev with
         | .error v => v
-        | .ok c =>
-          -- correspondence on "nothing happened"
-          if sys.isEmpty ∧ evs.isEmpty ∧ pick.isSome then
-            Verdict.corr s!"after '{l}': model dispatches socket {repr (pick.map (·.i))}, impl did nothing" c.tags
-          else
-            match c.checkState obs l with
-            | some v => v
-            | none => go c rest'
+        | .ok ev =>
+        let stE := parseState obs
+        let aborted := match ev with | .threw _ => true | .many => true | _ => false
+        match stE, aborted with
+        | .error e, false => Verdict.corr s!"after '{l}': {e}" c.tags
+        | _, _ =>
+        let st : StObs := match stE with | .ok st => st | .error _ => ⟨[], []⟩
+        let pick := c.sys.pick.map (·.i)
+        -- harness / dispatch sanity (correspondence), reported only when the property holds on the observation
+        let pre : Option Verdict :=
+          match ev with
+          | .recv i _ _ _ => if (c.sys.sock i).isNone then some (Verdict.corr s!"unknown socket {i}" c.tags) else none
+          | _ => none
+        match pre with
+        | some v => v
+        | none =>
+        let osFail := match ev with | .sendto _ _ .fail => true | _ => false
+        let tags : List String :=
+          match ev with
+          | .recv i _ _ _ =>
+            match c.sys.sock i with
+            | some k => "arecv" :: reportTags c.sp i (room k 0)
+            | none => []
+          | .sendto _ _ .full => if c.lastFail then ["asend.ok", "asend.after_fail"] else ["asend.ok"]
+          | .sendto _ _ .fail => ["asend.fail"]
+          | _ => []
+        match specStep c.sp (.step ev st) with
+        | .error msg => Verdict.spec s!"after '{l}': {msg}" c.tags
+        | .ok _ =>
+        let corr : Option Verdict :=
+          match ev with
+          | .nothing =>
+            if pick.isSome then some (Verdict.corr s!"after '{l}': model dispatches socket {repr pick}, impl did nothing" c.tags) else none
+          | .recv i _ _ _ =>
+            if pick ≠ some i ∨ (c.sys.net.chan i).isEmpty then
+              some (Verdict.corr s!"after '{l}': model dispatches {repr pick}, impl received on {i}" c.tags) else none
+          | .sendto i len res =>
+            let scriptedFail : Bool := match sc with | .fail _ => true | _ => false
+            if osFail && !scriptedFail && !(decide (len > maxPayload c.sys.fam)) then
+              some (Verdict.corr s!"after '{l}': unexpected sendto failure {repr res}" c.tags)
+            else if pick ≠ some i ∨ ¬ (c.sys.net.chan i).isEmpty then
+              some (Verdict.corr s!"after '{l}': model dispatches {repr pick}, impl sent on {i}" c.tags) else none
+          | _ => none
+        match corr with
+        | some v => v
+        | none =>
+          let c := match ev with | .sendto _ _ _ => { c with lastFail := osFail } | _ => c
+          next (c.apply l (.step ev st) (.step osFail) tags)
       | ["recv", i, size, t] =>
         match i.toNat?, size.toNat?, t.toInt? with
         | some i, some size, some t =>
-          match c.sock i with
+          match c.sys.sock i with
           | none => Verdict.corr s!"unknown socket {i}" c.tags
-          | some s =>
-            match obs with
-            | [["got", len, hash, src]] =>
-              match c.takeReport i (CSt.room s size) len hash src l with
-              | .error v => v
-              | .ok c => go c rest'
-            | [["none"]] =>
-              if ¬ (c.expectOf i).isEmpty then Verdict.spec s!"after '{l}': socket {i} reports nothing although {(c.expectOf i).length} datagram(s) sent to it are outstanding (loss)" c.tags
-              else if t < 0 then Verdict.spec s!"after '{l}': an unlimited ReceiveFrom returned nullopt" c.tags
-              else if ¬ (c.net.chan i).isEmpty then Verdict.corr s!"after '{l}': model channel not empty" c.tags
-              else go { c with tags := "recv.none" :: c.tags } rest'
-            | [["skipped"]] =>
-              if ¬ (c.expectOf i).isEmpty then Verdict.spec s!"after '{l}': socket {i} is not readable although {(c.expectOf i).length} datagram(s) sent to it are outstanding (loss)" c.tags
-              else go c rest'
-            | o => Verdict.spec s!"after '{l}': ReceiveFrom failed: {o}" c.tags
+          | some k =>
+            let r : Except Verdict RecvObs :=
+              match obs with
+              | [["got", len, hash, src]] =>
+                match len.toNat?, hash.toNat? with
+                | some len, some hash => .ok (.got len hash (parseSrc src))
+                | _, _ => .error (Verdict.corr s!"after '{l}': bad report" c.tags)
+              | [["none"]] => .ok .none
+              | [["skipped"]] => .ok .skipped
+              | o => .ok (.failed (toString o))
+            match r with
+            | .error v => v
+            | .ok r =>
+              let tags := match r with
+                | .got _ _ _ => reportTags c.sp i (room k size)
+                | .none => ["recv.none"]
+                | _ => []
+              next (c.apply l (.recv i size t r) (.recv i size t) tags)
         | _, _, _ => Verdict.corr s!"bad line {l}" c.tags
       | ["destroy", i] =>
         let i := i.toNat?.getD 0
-        let dead := (c.pendOf i).map (·.1)
-        let tag := if dead.isEmpty then "destroy.idle" else "destroy.pending"
-        let c := { c with socks := c.socks.filter (·.i ≠ i),
-                          tqs := setKey c.tqs i (tqStep (c.tq i) .destroy),
-                          pendq := setKey c.pendq i [], expect := setKey c.expect i [],
-                          status := c.status.map (fun (a, x) => if dead.contains a then (a, 'b') else (a, x)),
-                          tags := tag :: c.tags }
-        match c.checkState obs l with
-        | some v => v
-        | none => go c rest'
+        match parseState obs with
+        | .error e => Verdict.corr s!"after '{l}': {e}" c.tags
+        | .ok st =>
+          let tag := if (c.sp.pendq i).isEmpty then "destroy.idle" else "destroy.pending"
+          next (c.apply l (.destroy i st) (.destroy i) [tag])
       | _ => Verdict.corr s!"unknown line {l}" c.tags
 
 def runCase (body : List String) : Verdict := go {} body
